@@ -313,3 +313,23 @@ def probe_k6_posonly_kwarg_name():
     exec("def f(x, /, **kw):\n    return (x, sorted(kw.items()))", ns)
     g = klepto.inf_cache()(ns['f'])
     return g(1, x=5) == g(1, x=6)
+
+
+def k4_stringmap_bare(hit):
+    """K4 (C10): the shared key is the str() of one bare argument under a flat string keymap"""
+    return bool(hit.get('bare_str')) and hit.get('keymap', '').startswith('str-')
+
+
+def k13_unrounded_default(hit):
+    """K13 (C09): with tol set, a float default that the caller spells out is rounded, the same default left
+    to the signature is not (rounding runs before defaults are filled in)"""
+    return bool(hit.get('k13'))
+
+
+def probe_k13_unrounded_default():
+    import klepto
+
+    def f(x, p=2.26):
+        return (x, p)
+    g = klepto.lru_cache(maxsize=5, tol=1)(f)
+    return g.key(1) != g.key(1, p=2.26)
